@@ -89,23 +89,29 @@ Definition xis_exc (x : xout) : bool := match x with XOut o => is_exc o | _ => f
 Definition pre_next (f : fn) (dpre : bool) (s' : sample) (h : hist) : bool :=
   match f with DELAY => dpre && delay_top s' h | _ => spec_pre f (s' :: h) end.
 
-Fixpoint check_spec (f : fn) (mask : list Z) (h : hist) (dpre : bool) (i : Z) (l : list obs) : option Z :=
+(* [tmax] = the latest time of any earlier sample, kept or dropped.  FREEZE writes `_last_time_ms = 0` when its timer has
+   expired even if the value argument then fails (a dropped sample), which is only equivalent to "nothing happened" while
+   time does not go backwards: its specification (stated for non-decreasing times) stops at the first backward step of the
+   whole outcome history, not just of the effective one. *)
+Fixpoint check_spec (f : fn) (mask : list Z) (h : hist) (dpre : bool) (tmax : Z) (i : Z) (l : list obs) : option Z :=
   match l with
   | [] => None
   | (now, a, o, _, ev) :: r =>
       if xis_exc o then None else
+      if match f with FREEZE => now <? tmax | _ => false end then None else
+      let tmax := Z.max tmax now in
       let ev_ok := list_eqb Z.eqb ev (counted mask (spec_evaluated f h (now, a))) in
       match eff_step f h (now, a) with
       | EStop => None
       | EDrop x =>
           if shaped f h && times_pos h && (match f with DELAY => dpre | _ => spec_pre f h end) && negb (xout_eqb o x && ev_ok)
-          then Some i else check_spec f mask h dpre (i + 1) r
+          then Some i else check_spec f mask h dpre tmax (i + 1) r
       | EKeep s' =>
           let h' := s' :: h in
           let dpre' := pre_next f dpre s' h in
           if shaped f h' && times_pos h' && dpre' then
-            if xout_sem_eqb o (XOut (spec_of f h')) && ev_ok then check_spec f mask h' dpre' (i + 1) r else Some i
-          else check_spec f mask h' dpre' (i + 1) r
+            if xout_sem_eqb o (XOut (spec_of f h')) && ev_ok then check_spec f mask h' dpre' tmax (i + 1) r else Some i
+          else check_spec f mask h' dpre' tmax (i + 1) r
       end
   end.
 
@@ -122,7 +128,7 @@ Fixpoint collect (chk : fn -> list Z -> list obs -> option Z) (want_spec : bool)
   end.
 
 Definition bad_model (cases : list case) : list Z := collect (fun f m l => check_model f m st0 0 l) false cases 0.
-Definition bad_spec (cases : list case) : list Z := collect (fun f m l => check_spec f m [] true 0 l) true cases 0.
+Definition bad_spec (cases : list case) : list Z := collect (fun f m l => check_spec f m [] true 0 0 l) true cases 0.
 
 (* ---------------------------------------------------------------- the hub loop on the model (used for the HELD witness) *)
 Definition port_values_with_pauses (f : fn) (ts : list tick) := run_with_pauses (fstep f) ts.
